@@ -214,6 +214,39 @@ impl W {
             }
         }
     }
+    /// like init_new, with an explicit turn-start hash and repetition history (values produced by the crate's
+    /// own public Zobrist functions); previous boards are `step` copies of the board
+    #[allow(clippy::too_many_arguments)]
+    pub fn init_built(&mut self, w: [u64; 7], gold: bool, move_no: u64, step: u64, status: (u64, u64, u64), trapped: bool, h0: Zobrist, hist: &[Zobrist]) -> Option<GameState> {
+        let mut v = vec![2];
+        v.extend(w);
+        v.extend([gold as u64, move_no, step, status.0, status.1, status.2, trapped as u64]);
+        v.push(h0.board_state_hash());
+        v.extend(hist.iter().map(|z| z.board_state_hash()));
+        line(&mut self.out, 'I', &v);
+        let r = catch_unwind(AssertUnwindSafe(|| {
+            let pb = PieceBoard::new(w[0], w[1], w[2], w[3], w[4], w[5], w[6]);
+            let hash = Zobrist::from_piece_board(pb.piece_board(), gold, step as usize);
+            let mut hl = List::new();
+            for z in hist {
+                hl = hl.append(*z);
+            }
+            let prev: Vec<PieceBoard> = (0..step).map(|_| pb.clone()).collect();
+            let st = match status.0 {
+                0 => PushPullState::None,
+                1 => PushPullState::PossiblePull(Square::from_index(status.1 as u8), piece_of_code(status.2)),
+                _ => PushPullState::MustCompletePush(Square::from_index(status.1 as u8), piece_of_code(status.2)),
+            };
+            GameState::new(gold, move_no as usize, Phase::PlayPhase(PlayPhase::new(h0, hl, prev, st, trapped)), pb, hash)
+        }));
+        match r {
+            Ok(gs) => Some(gs),
+            Err(_) => {
+                self.out.push_str("X I\n");
+                None
+            }
+        }
+    }
     pub fn watch(&mut self, gs: &GameState, kind: u64) {
         line(&mut self.out, 'O', &[kind]);
         self.states += 1;
@@ -547,6 +580,317 @@ pub fn g_rep(w: &mut W, rng: &mut Rng, n_cases: u64, len: u64) {
             w.watch(&gs, 0);
         }
         w.end();
+    }
+}
+
+// ---------------------------------------------------------------------------------------
+// G-seek: repetition seeker.  Tiny interacting material; at every turn start the whole turn tree (through the
+// rule-only lists) is searched for turns that re-create a position already seen at a turn start of the case -
+// restoring what the opponent just did by a push or pull, or shuttling - and such a turn is played with high
+// probability.  Every state on the way is watched, so the repetition filter is compared with the model at
+// exactly the states where a second or third occurrence is one step away (also with short histories).
+
+fn pos_key(gs: &GameState) -> ([u64; 8], bool) {
+    (enc_pbs(gs.piece_board()), gs.is_p1_turn_to_move())
+}
+
+fn seek_turns(gs: &GameState, side: bool, path: &mut Vec<Action>, out: &mut Vec<(Vec<Action>, ([u64; 8], bool))>, budget: &mut i64) {
+    if *budget <= 0 {
+        return;
+    }
+    for a in gs.valid_actions_no_rep() {
+        *budget -= 1;
+        if *budget <= 0 {
+            return;
+        }
+        let n = match catch_unwind(AssertUnwindSafe(|| gs.take_action(&a))) {
+            Ok(n) => n,
+            Err(_) => continue,
+        };
+        path.push(a);
+        if n.is_p1_turn_to_move() != side {
+            out.push((path.clone(), pos_key(&n)));
+        } else {
+            seek_turns(&n, side, path, out, budget);
+        }
+        path.pop();
+    }
+}
+
+pub fn g_seek(w: &mut W, rng: &mut Rng, n_cases: u64, turns: u64) {
+    for c in 0..n_cases {
+        w.begin("seek");
+        let mut cells: [Cell; 64] = [None; 64];
+        // one or two pieces a side, each side has a rabbit far from goal or none at all on a side is avoided;
+        // a strong piece of one side next to (or near) a weaker piece of the other, away from traps
+        let r0 = 2 + rng.below(4) as usize;
+        let c0 = 1 + rng.below(6) as usize;
+        let a = r0 * 8 + c0;
+        let gap = 1 + rng.below(2) as usize;
+        let b = if rng.chance(1, 2) { r0 * 8 + (c0 + gap).min(7) } else { (r0 + gap).min(7) * 8 + c0 };
+        if a == b || TRAPS.contains(&a) || TRAPS.contains(&b) {
+            w.end();
+            continue;
+        }
+        let strong_gold = rng.chance(1, 2);
+        let ks = 1 + rng.below(3) as usize; // KINDS index of the weaker: 1.. (cat..)
+        let kstrong = (ks + 1 + rng.below(2) as usize).min(5);
+        cells[a] = Some((strong_gold, KINDS[kstrong]));
+        cells[b] = Some((!strong_gold, KINDS[ks]));
+        // rabbits so that nobody has lost by elimination; placed in far corners, not on goal ranks
+        {
+            let spots = if c % 2 == 0 { [(6 * 8, true), (8 + 7, false)] } else { [(5 * 8 + 7, true), (2 * 8, false)] };
+            for (sq, gold) in spots {
+                if cells[sq].is_none() {
+                    cells[sq] = Some((gold, KINDS[0]));
+                }
+            }
+        }
+        legalize(&mut cells);
+        let gold = rng.chance(1, 2);
+        let text = diagram(&cells, 2 + rng.below(5), gold);
+        let mut gs = match w.init_pos(&text) {
+            Some(g) => g,
+            None => {
+                w.end();
+                continue;
+            }
+        };
+        w.watch(&gs, 0);
+        let mut seen: Vec<([u64; 8], bool)> = vec![pos_key(&gs)];
+        'game: for _ in 0..turns {
+            if gs.is_terminal().is_some() {
+                break;
+            }
+            let side = gs.is_p1_turn_to_move();
+            let mut found = vec![];
+            let mut budget: i64 = 6000;
+            seek_turns(&gs, side, &mut vec![], &mut found, &mut budget);
+            if found.is_empty() {
+                break;
+            }
+            let rep: Vec<&(Vec<Action>, ([u64; 8], bool))> = found.iter().filter(|(_, k)| seen.contains(k)).collect();
+            w.stat("seek.turns", 1);
+            let plan: Vec<Action> = if !rep.is_empty() && rng.chance(85, 100) {
+                w.stat("seek.turns_recreating_a_seen_position", 1);
+                // prefer the longest histories of occurrences: positions seen most often
+                let best = rep.iter().map(|(_, k)| seen.iter().filter(|x| *x == k).count()).max().unwrap();
+                let top: Vec<&&(Vec<Action>, ([u64; 8], bool))> =
+                    rep.iter().filter(|(_, k)| seen.iter().filter(|x| *x == k).count() == best || rng.chance(1, 4)).collect();
+                let pick = if top.is_empty() { rep[rng.below(rep.len() as u64) as usize] } else { *top[rng.below(top.len() as u64) as usize] };
+                pick.0.clone()
+            } else {
+                // a short quiet turn
+                let short: Vec<&(Vec<Action>, ([u64; 8], bool))> = found.iter().filter(|(p, _)| p.len() <= 2).collect();
+                let pool = if short.is_empty() { found.iter().collect::<Vec<_>>() } else { short };
+                pool[rng.below(pool.len() as u64) as usize].0.clone()
+            };
+            for a in plan.iter() {
+                w.watch(&gs, 0);
+                // the planned action may be withheld by the repetition filter: that is the point of the watch above
+                if !gs.valid_actions().contains(a) {
+                    w.stat("seek.planned_action_withheld", 1);
+                    // fall back to any offered action
+                    let acts = gs.valid_actions();
+                    if acts.is_empty() {
+                        break 'game;
+                    }
+                    let alt = acts[rng.below(acts.len() as u64) as usize];
+                    match w.act(&gs, &alt) {
+                        Some(n) => gs = n,
+                        None => break 'game,
+                    }
+                    if gs.is_p1_turn_to_move() != side {
+                        seen.push(pos_key(&gs));
+                        continue 'game;
+                    }
+                    // finish the turn with a pass if possible, else random offered actions
+                    while gs.is_p1_turn_to_move() == side {
+                        w.watch(&gs, 0);
+                        let acts = gs.valid_actions();
+                        if acts.is_empty() {
+                            break 'game;
+                        }
+                        let a2 = if acts.contains(&Action::Pass) { Action::Pass } else { acts[rng.below(acts.len() as u64) as usize] };
+                        match w.act(&gs, &a2) {
+                            Some(n) => gs = n,
+                            None => break 'game,
+                        }
+                    }
+                    seen.push(pos_key(&gs));
+                    continue 'game;
+                }
+                match w.act(&gs, a) {
+                    Some(n) => gs = n,
+                    None => break 'game,
+                }
+            }
+            seen.push(pos_key(&gs));
+            w.watch(&gs, 0);
+        }
+        w.end();
+    }
+}
+
+// ---------------------------------------------------------------------------------------
+// G-built: mid-turn states assembled through the public constructors with a status that fits the board and a
+// SYNTHETIC turn-start hash and repetition history (the position after a pass / after each turn-ending step
+// entered zero, one or two times): every combination of "may pass / pass withheld (unchanged position or third
+// occurrence)", "all movers frozen", "pull pending", "push pending", "last step" is reached directly instead of
+// waiting for a game to produce it.  These states need not be reachable: they are used for the model-vs-code
+// comparison only (the monitors treat `I 2` cases as not reachable).
+
+pub fn words_of(cells: &[Cell; 64]) -> [u64; 7] {
+    let mut wds = [0u64; 7];
+    for (i, c) in cells.iter().enumerate() {
+        if let Some((g, k)) = c {
+            let slot = match k {
+                Piece::Elephant => 1,
+                Piece::Camel => 2,
+                Piece::Horse => 3,
+                Piece::Dog => 4,
+                Piece::Cat => 5,
+                Piece::Rabbit => 6,
+            };
+            wds[slot] |= 1 << i;
+            if *g {
+                wds[0] |= 1 << i;
+            }
+        }
+    }
+    wds
+}
+
+pub fn g_built(w: &mut W, rng: &mut Rng, n_cases: u64) {
+    for c in 0..n_cases {
+        let lo = 2 + rng.below(3);
+        let hi = lo + 2 + rng.below(6);
+        let cells = random_position(rng, lo, hi, c % 4 != 0);
+        let gold = rng.chance(1, 2);
+        let step = if rng.chance(1, 8) { 0 } else { 1 + rng.below(3) };
+        // a status that fits the board
+        let own: Vec<usize> = (0..64).filter(|i| matches!(cells[*i], Some((g, k)) if g == gold && k != Piece::Rabbit)).collect();
+        let enemy: Vec<usize> = (0..64).filter(|i| matches!(cells[*i], Some((g, k)) if g != gold && k != Piece::Elephant)).collect();
+        let mut status = (0u64, 0u64, 0u64);
+        let want = if step == 0 { 0 } else { rng.below(3) };
+        if want == 1 && !own.is_empty() {
+            let t = own[rng.below(own.len() as u64) as usize];
+            let free: Vec<usize> = nbrs(t).into_iter().filter(|j| cells[*j].is_none()).collect();
+            if !free.is_empty() {
+                status = (1, free[rng.below(free.len() as u64) as usize] as u64, piece_code(cells[t].unwrap().1));
+            }
+        } else if want == 2 && !enemy.is_empty() {
+            let t = enemy[rng.below(enemy.len() as u64) as usize];
+            let free: Vec<usize> = nbrs(t).into_iter().filter(|j| cells[*j].is_none()).collect();
+            if !free.is_empty() {
+                status = (2, free[rng.below(free.len() as u64) as usize] as u64, piece_code(cells[t].unwrap().1));
+            }
+        }
+        let wds = words_of(&cells);
+        let trapped = rng.chance(1, 4);
+        let pb = PieceBoard::new(wds[0], wds[1], wds[2], wds[3], wds[4], wds[5], wds[6]);
+        let same = Zobrist::from_piece_board(pb.piece_board(), gold, 0);
+        // turn-start hash: the unchanged position, or the position with one mover piece elsewhere
+        let h0 = if rng.chance(1, 3) {
+            same
+        } else {
+            let mut c2 = cells;
+            let movers: Vec<usize> = (0..64).filter(|i| matches!(cells[*i], Some((g, _)) if g == gold)).collect();
+            if let Some(&m) = movers.get(rng.below(movers.len().max(1) as u64) as usize) {
+                let free: Vec<usize> = nbrs(m).into_iter().filter(|j| cells[*j].is_none()).collect();
+                if let Some(&f) = free.get(rng.below(free.len().max(1) as u64) as usize) {
+                    c2[f] = c2[m];
+                    c2[m] = None;
+                }
+            }
+            let w2 = words_of(&c2);
+            let pb2 = PieceBoard::new(w2[0], w2[1], w2[2], w2[3], w2[4], w2[5], w2[6]);
+            Zobrist::from_piece_board(pb2.piece_board(), gold, 0)
+        };
+        // candidate history entries: the turn-start hash, the position after a pass, after each turn-ending step
+        w.begin("built");
+        let probe = match w.init_built(wds, gold, 2 + rng.below(5), step, status, trapped, h0, &[h0]) {
+            Some(g) => g,
+            None => {
+                w.end();
+                continue;
+            }
+        };
+        w.watch(&probe, 0);
+        let mut cands: Vec<Zobrist> = vec![];
+        if step >= 1 {
+            let hash_now = Zobrist::from_piece_board(pb.piece_board(), gold, step as usize);
+            cands.push(hash_now.pass(step as usize));
+        }
+        if let Ok(acts) = catch_unwind(AssertUnwindSafe(|| probe.valid_actions_no_rep())) {
+            for a in acts {
+                if let Ok(n) = catch_unwind(AssertUnwindSafe(|| probe.take_action(&a))) {
+                    if n.is_p1_turn_to_move() != gold {
+                        if let Some(z) = n.unwrap_play_phase().hash_history().iter().next() {
+                            cands.push(*z);
+                        }
+                    }
+                }
+            }
+        }
+        w.end();
+        // two variants with synthetic histories
+        for variant in 0..2 {
+            let mut hist: Vec<Zobrist> = vec![h0];
+            for z in cands.iter() {
+                let times = match rng.below(if variant == 0 { 4 } else { 3 }) {
+                    0 => 2,
+                    1 => 1,
+                    _ => 0,
+                };
+                // the pass hash is entered twice more often: it decides can_pass(true)
+                for _ in 0..times {
+                    hist.push(*z);
+                }
+            }
+            if variant == 1 && !cands.is_empty() {
+                hist.push(cands[0]);
+                hist.push(cands[0]);
+            }
+            // order as a game would have it is irrelevant to the count; shuffle lightly
+            if hist.len() > 2 && rng.chance(1, 2) {
+                let i = 1 + rng.below(hist.len() as u64 - 1) as usize;
+                hist.swap(1, i);
+            }
+            let mv = 2 + rng.below(5);
+            w.begin("built");
+            let mut kids: Vec<Action> = vec![];
+            if let Some(gs) = w.init_built(wds, gold, mv, step, status, trapped, h0, &hist) {
+                w.watch(&gs, 0);
+                w.stat(&format!("built.step{}.status{}.hist{}", step, status.0, hist.len().min(9)), 1);
+                if let Ok(acts) = catch_unwind(AssertUnwindSafe(|| gs.valid_actions())) {
+                    kids = acts;
+                }
+            }
+            // one action deep (the trace protocol is linear: one case per child)
+            for k in 0..2 {
+                if kids.is_empty() {
+                    break;
+                }
+                let a = kids[rng.below(kids.len() as u64) as usize];
+                if k == 0 {
+                    if let Some(gs) = w.init_built(wds, gold, mv, step, status, trapped, h0, &hist) {
+                        if let Some(n) = w.act(&gs, &a) {
+                            w.watch(&n, 0);
+                        }
+                    }
+                } else {
+                    w.end();
+                    w.begin("built");
+                    if let Some(gs) = w.init_built(wds, gold, mv, step, status, trapped, h0, &hist) {
+                        if let Some(n) = w.act(&gs, &a) {
+                            w.watch(&n, 0);
+                        }
+                    }
+                }
+            }
+            w.end();
+        }
     }
 }
 
